@@ -473,6 +473,7 @@ func c09Encoders(c *Ctx) {
 			in   ssa.Instruction
 			recv string // symx of the receiver, in terms of f's own parameters
 			via  string
+			val  ssa.Value // the receiver value itself (direct sites only)
 		}
 		// sitesOf: ToBytes call sites of g; helper methods/functions of the module that are not encoders
 		// themselves are expanded (depth ≤ 3) with their parameters replaced by the actual arguments
@@ -487,7 +488,7 @@ func c09Encoders(c *Ctx) {
 				cc := cl.Common()
 				if cc.IsInvoke() {
 					if cc.Method.Name() == "ToBytes" {
-						out = append(out, site{in, c.Sx().Of(cc.Value).String(), ""})
+						out = append(out, site{in, c.Sx().Of(cc.Value).String(), "", cc.Value})
 					}
 					return
 				}
@@ -496,7 +497,7 @@ func c09Encoders(c *Ctx) {
 					return
 				}
 				if sf.Name() == "ToBytes" && sf.Signature.Recv() != nil && len(cc.Args) > 0 {
-					out = append(out, site{in, c.Sx().Of(cc.Args[0]).String(), ""})
+					out = append(out, site{in, c.Sx().Of(cc.Args[0]).String(), "", cc.Args[0]})
 					return
 				}
 				if depth >= 3 || sf.Name() == "Marshal" || sf.Name() == "String" || sf.Name() == "Summary" {
@@ -509,7 +510,7 @@ func c09Encoders(c *Ctx) {
 							rs = strings.ReplaceAll(rs, c.Sx().Of(sf.Params[i]).String(), c.Sx().Of(a).String())
 						}
 					}
-					out = append(out, site{in, rs, shortName(sf)})
+					out = append(out, site{in, rs, shortName(sf), nil})
 				}
 			})
 			return out
@@ -518,7 +519,11 @@ func c09Encoders(c *Ctx) {
 		n += len(sites)
 		for i := 0; i < len(sites); i++ {
 			for j := 0; j < len(sites); j++ {
-				if i == j || sites[i].recv != sites[j].recv || strings.Contains(sites[i].recv, "opaque(") {
+				if i == j {
+					continue
+				}
+				sameVal := sites[i].val != nil && sites[i].val == sites[j].val
+				if !sameVal && (sites[i].recv != sites[j].recv || strings.Contains(sites[i].recv, "opaque(")) {
 					continue
 				}
 				a, b := sites[i].in, sites[j].in
@@ -533,7 +538,11 @@ func c09Encoders(c *Ctx) {
 					} else if sites[j].via != "" {
 						via = " (second through " + sites[j].via + ")"
 					}
-					r.Violation("C09-K4", shortName(f)+": ToBytes invoked twice on "+shortRecv(sites[i].recv), c.P.ipos(b),
+					what := shortRecv(sites[i].recv)
+					if sites[i].val != nil {
+						what = shortDesc(sites[i].val, 3)
+					}
+					r.Violation("C09-K4", shortName(f)+": ToBytes invoked twice on "+what, c.P.ipos(b),
 						"the same sub-value is serialised twice on one path (first at "+c.P.ipos(a)+")"+via+": an option nested d levels deep is re-encoded 2^d times, so re-encoding a decoded message is exponential in the nesting depth")
 				}
 			}
